@@ -4,6 +4,9 @@
              6 release the listeners factory  7 release service_init  8 release the clients' teardown
              9 UDP: a datagram is queued behind a suspended handler of the same address
              10 (standalone) shutdown() pre-empted right before its event wait   11 that thread resumes
+             12 (standalone) NetworkServerThread(server).start(): two status slots (start(), the thread's serve_forever)
+           standalone gates: [start-up window (locks held); service_init; tear-down before the bootstrap lock is re-acquired]
+           released by 6 / 7 / 8
    After every label the internal transitions run to quiescence (gated completions only when released) and one
    observation is emitted:  L [L [A status ...]; A is_serving; A is_listening; A listener_socket_bound]
      (the last one is probed from outside the server by binding to its address; the model says is_listening again)
@@ -73,9 +76,13 @@ Record sst := { tclosed : bool; arun : option st; cur : nat; sstat : list Z;
                 window : bool;                 (* the serving thread is inside the start-up window: both locks held *)
                 blocked : list (Z * nat);      (* calls blocked on those locks: label, status index *)
                 pre : option (nat * bool);     (* a shutdown call pre-empted right before its event wait; was the run it saw over? *)
-                hung : list nat }.             (* shutdown calls waiting for the threading event *)
+                hung : list nat;               (* shutdown calls waiting for the threading event *)
+                tdown : option Z;              (* the serving thread is paused in its tear-down, before it re-acquires the
+                                                  bootstrap lock (portal dead, fields not reset, event not set); outcome of its call *)
+                isup : bool;                   (* the is_up event of the current run has been set *)
+                starts : list (nat * nat) }.   (* NetworkServerThread.start() calls waiting: its slot, the slot of the thread's run *)
 
-Definition no_gates : gates := {| g_factory := false; g_init := false; g_client := false |}.
+Record sgates := { sg_window : bool; sg_init : bool; sg_teardown : bool }.
 
 Fixpoint serve_outcome (os : list obs) : Z :=
   match os with
@@ -86,106 +93,165 @@ Fixpoint serve_outcome (os : list obs) : Z :=
 
 Definition upd (x : sst) (tc : bool) (ar : option st) (cu : nat) (ss : list Z) : sst :=
   {| tclosed := tc; arun := ar; cur := cu; sstat := ss; window := window x; blocked := blocked x;
-     pre := pre x; hung := hung x |}.
+     pre := pre x; hung := hung x; tdown := tdown x; isup := isup x; starts := starts x |}.
+Definition set_window (x : sst) (w : bool) (b : list (Z * nat)) : sst :=
+  {| tclosed := tclosed x; arun := arun x; cur := cur x; sstat := sstat x; window := w; blocked := b;
+     pre := pre x; hung := hung x; tdown := tdown x; isup := isup x; starts := starts x |}.
+Definition set_pre_hung (x : sst) (p : option (nat * bool)) (h : list nat) : sst :=
+  {| tclosed := tclosed x; arun := arun x; cur := cur x; sstat := sstat x; window := window x; blocked := blocked x;
+     pre := p; hung := h; tdown := tdown x; isup := isup x; starts := starts x |}.
+Definition set_tdown (x : sst) (t : option Z) : sst :=
+  {| tclosed := tclosed x; arun := arun x; cur := cur x; sstat := sstat x; window := window x; blocked := blocked x;
+     pre := pre x; hung := hung x; tdown := t; isup := isup x; starts := starts x |}.
+Definition set_up_starts (x : sst) (u : bool) (l : list (nat * nat)) : sst :=
+  {| tclosed := tclosed x; arun := arun x; cur := cur x; sstat := sstat x; window := window x; blocked := blocked x;
+     pre := pre x; hung := hung x; tdown := tdown x; isup := u; starts := l |}.
 
 Fixpoint set_all (is : list nat) (v : Z) (l : list Z) : list Z :=
   match is with [] => l | i :: is' => set_all is' v (set_nth i v l) end.
 
-(* the asynchronous run has ended (its event is set): the serving thread leaves serve_forever *)
-Definition wrap_up (x : sst) (a : st) (oa : list obs) : sst :=
+(* the serving thread finishes its tear-down: bootstrap lock re-acquired, reset_values, event set *)
+Definition finish_run (x : sst) (code : Z) : sst :=
+  set_pre_hung (upd x (tclosed x) None (cur x) (set_all (hung x) 1 (set_nth (cur x) code (sstat x)))) (pre x) [].
+
+(* the asynchronous run has ended: the loop is over, the portal is dead, the asynchronous server closed; the serving
+   thread goes on to its tear-down (held back before the lock re-acquisition when that gate is armed) *)
+Definition wrap_up (hold : bool) (x : sst) (a : st) (oa : list obs) : sst :=
   if ev a
-  then {| tclosed := tclosed x; arun := None; cur := cur x;
-          sstat := set_all (hung x) 1 (set_nth (cur x) (serve_outcome oa) (sstat x));   (* the event is set *)
-          window := window x; blocked := blocked x; pre := pre x; hung := [] |}
+  then if hold then set_tdown (upd x (tclosed x) None (cur x) (sstat x)) (Some (serve_outcome oa))
+       else finish_run x (serve_outcome oa)
   else upd x (tclosed x) (Some a) (cur x) (sstat x).
 
-Definition async_do (x : sst) (l : label) : sst :=
+Definition async_do (g : sgates) (open_init : bool) (x : sst) (l : label) : sst :=
   match arun x with
   | None => x
   | Some a =>
       let '(a1, o1) := match step a l with Some r => r | None => (a, []) end in
-      let '(a2, o2) := settle FUEL no_gates a1 in
-      wrap_up x a2 (o1 ++ o2)
+      let '(a2, o2) := settle FUEL {| g_factory := false; g_init := sg_init g && negb open_init; g_client := false |} a1 in
+      wrap_up (sg_teardown g) x a2 (o1 ++ o2)
   end.
 
 Definition set_stat (x : sst) (i : nat) (v : Z) : sst := upd x (tclosed x) (arun x) (cur x) (set_nth i v (sstat x)).
 
+Definition running (x : sst) : bool :=
+  match arun x, tdown x with None, None => false | _, _ => true end.
+
 (* a call that has got past the locks; its status slot is i *)
-Definition exec_call (c : Z) (i : nat) (gated : bool) (x : sst) : sst :=
+Definition exec_call (g : sgates) (c : Z) (i : nat) (x : sst) : sst :=
   match c with
   | 0 =>
       if tclosed x then set_stat x i 3
-      else if window x then set_stat x i 2          (* unreachable: the locks are held during the window *)
-      else match arun x with
-           | Some _ => set_stat x i 2
-           | None =>
-               if gated
-               then {| tclosed := tclosed x; arun := None; cur := i; sstat := sstat x; window := true; blocked := blocked x;
-                       pre := pre x; hung := hung x |}
-               else async_do (upd x (tclosed x) (Some init) i (sstat x)) LCallServe
-           end
-  | 1 => set_stat (async_do x LCallShutdown) i 1
-  | 2 => let x := set_stat (async_do x LCallClose) i 1 in upd x true (arun x) (cur x) (sstat x)
+      else if window x || running x then set_stat x i 2          (* the event of the current run is not set *)
+      else if sg_window g
+           then set_window (set_up_starts (upd x (tclosed x) None i (sstat x)) false (starts x)) true (blocked x)
+           else async_do g false (set_up_starts (upd x (tclosed x) (Some init) i (sstat x)) false (starts x)) LCallServe
+  | 1 =>
+      let x := async_do g false x LCallShutdown in
+      match tdown x with
+      | Some _ => set_pre_hung x (pre x) (i :: hung x)     (* dead portal: RuntimeError suppressed, then waits for the event *)
+      | None => set_stat x i 1
+      end
+  | 2 =>
+      (* the asynchronous server_close() raises BusyResourceError while serve_forever is in its set-up (close guard).
+         As found, suppress(RuntimeError) swallows it: server_close() returns normally and __is_closed is set although
+         nothing was closed; with standalone_close_propagates_busy it reaches the caller and nothing changes. *)
+      let busy := match arun x with
+                  | Some a => match guard a with Some _ => true | None => false end
+                  | None => false
+                  end in
+      if busy && standalone_close_propagates_busy then set_stat x i 4
+      else let x := set_stat (async_do g false x LCallClose) i 1 in upd x true (arun x) (cur x) (sstat x)
   | _ => x
   end.
 
-Fixpoint exec_blocked (bs : list (Z * nat)) (gated : bool) (x : sst) : sst :=
+Fixpoint exec_blocked (g : sgates) (bs : list (Z * nat)) (x : sst) : sst :=
   match bs with
   | [] => x
-  | (c, i) :: bs' => exec_blocked bs' gated (exec_call c i gated x)
+  | (c, i) :: bs' => exec_blocked g bs' (exec_call g c i x)
   end.
 
-Definition sdo_label (gated : bool) (c : Z) (x : sst) : sst :=
+Definition sdo_label (g : sgates) (c : Z) (x : sst) : sst :=
   match c with
   | 0 | 1 | 2 =>
       let i := length (sstat x) in
       let x := upd x (tclosed x) (arun x) (cur x) (sstat x ++ [0]) in
       if window x
-      then {| tclosed := tclosed x; arun := arun x; cur := cur x; sstat := sstat x; window := true;
-              blocked := blocked x ++ [(c, i)]; pre := pre x; hung := hung x |}
-      else exec_call c i gated x
-  | 3 => async_do x LConnect
-  | 4 => async_do x LDisconnect
+      then set_window x true (blocked x ++ [(c, i)])
+      else exec_call g c i x
+  | 3 => async_do g false x LConnect
+  | 4 => async_do g false x LDisconnect
   | 6 =>
       if window x
       then
         let bs := blocked x in
-        let x := {| tclosed := tclosed x; arun := Some init; cur := cur x; sstat := sstat x; window := false; blocked := [];
-                    pre := pre x; hung := hung x |} in
-        exec_blocked bs gated (async_do x LCallServe)
+        let x := set_window (upd x (tclosed x) (Some init) (cur x) (sstat x)) false [] in
+        exec_blocked g bs (async_do g false x LCallServe)
       else x
-  | 9 => async_do x LUdpQueue
+  | 7 => async_do g true x LQuery                      (* service_init released: the set-up goes on *)
+  | 8 =>
+      match tdown x with
+      | Some code => finish_run (set_tdown x None) code  (* tear-down released *)
+      | None => x
+      end
+  | 9 => async_do g false x LUdpQueue
   | 10 =>
       (* shutdown(), stopped by the scheduler right before its Event.wait(): its locked section has run *)
       let i := length (sstat x) in
       let x := upd x (tclosed x) (arun x) (cur x) (sstat x ++ [0]) in
-      let x := async_do x LCallShutdown in        (* portal.run_coroutine(server.shutdown) if a server is running *)
-      {| tclosed := tclosed x; arun := arun x; cur := cur x; sstat := sstat x; window := window x;
-         blocked := blocked x; pre := Some (i, match arun x with None => true | Some _ => false end); hung := hung x |}
+      let x := async_do g false x LCallShutdown in        (* portal.run_coroutine(server.shutdown) if a server is running *)
+      set_pre_hung x (Some (i, negb (running x))) (hung x)
   | 11 =>
       (* the pre-empted shutdown resumes.  As found it waits for the one shared event, whatever run cleared it;
          guarded (one event per run, captured under the lock) it waits for the event of the run it saw. *)
       match pre x with
       | None => x
       | Some (i, seen_over) =>
-          let returns := match arun x with None => true | Some _ => standalone_shutdown_guarded && seen_over end in
+          let returns := negb (running x) || (standalone_shutdown_guarded && seen_over) in
           if returns
-          then {| tclosed := tclosed x; arun := arun x; cur := cur x; sstat := set_nth i 1 (sstat x);
-                  window := window x; blocked := blocked x; pre := None; hung := hung x |}
-          else {| tclosed := tclosed x; arun := arun x; cur := cur x; sstat := sstat x;
-                  window := window x; blocked := blocked x; pre := None; hung := i :: hung x |}
+          then set_pre_hung (set_stat x i 1) None (hung x)
+          else set_pre_hung x None (i :: hung x)
       end
+  | 12 =>
+      (* NetworkServerThread(server).start(): two slots, the start() call and the thread's serve_forever *)
+      let i := length (sstat x) in
+      let x := upd x (tclosed x) (arun x) (cur x) (sstat x ++ [0; 0]) in
+      let x := exec_call g 0 (S i) x in
+      set_up_starts x (isup x) (starts x ++ [(i, S i)])
   | _ => x
   end.
 
-Fixpoint srun_labels (gated : bool) (cs : list Z) (x : sst) : list sx :=
+(* is_up_event.set(): by the asynchronous serve_forever once the listeners run, and by NetworkServerThread.run when
+   serve_forever has ended (always if it does so in a finally clause; only on an exception otherwise) *)
+Definition async_up (x : sst) : bool :=
+  match arun x with
+  | Some a => existsb (fun e => match snd e with SMain | SWait => true | _ => false end) (serves a)
+  | None => false
+  end.
+
+Fixpoint resolve_starts (x : sst) (up : bool) (l : list (nat * nat)) : list Z * list (nat * nat) :=
+  match l with
+  | [] => (sstat x, [])
+  | (si, ri) :: l' =>
+      let '(ss, rest) := resolve_starts x up l' in
+      let code := nth ri (sstat x) 0 in
+      let ended := negb (Z.eqb code 0) in
+      let woken := (ended && (nst_sets_up_in_finally || negb (Z.eqb code 1))) || (Nat.eqb ri (cur x) && up) in
+      if woken then (set_nth si 1 ss, rest) else (ss, (si, ri) :: rest)
+  end.
+
+Definition post_label (x : sst) : sst :=
+  let up := isup x || async_up x in
+  let '(ss, rest) := resolve_starts x up (starts x) in
+  set_up_starts (upd x (tclosed x) (arun x) (cur x) ss) up rest.
+
+Fixpoint srun_labels (g : sgates) (cs : list Z) (x : sst) : list sx :=
   match cs with
   | [] => []
   | c :: cs' =>
-      let x' := sdo_label gated c x in
+      let x' := post_label (sdo_label g c x) in
       let sv := match arun x' with Some a => is_serving a | None => false end in
       let ls := match arun x' with Some a => is_listening a | None => false end in
-      L [L (map A (sstat x')); of_bool sv; of_bool ls; of_bool ls] :: srun_labels gated cs' x'
+      L [L (map A (sstat x')); of_bool sv; of_bool ls; of_bool ls] :: srun_labels g cs' x'
   end.
 
 Definition run (x : sx) : sx :=
@@ -193,7 +259,9 @@ Definition run (x : sx) : sx :=
   | L (A k :: L [A gf; A gi; A gc] :: L cs :: _) =>
       do cs <- map_opt as_Z cs;
       if Z.leb 2 k
-      then L (srun_labels (negb (Z.eqb gf 0)) cs {| tclosed := false; arun := None; cur := O; sstat := []; window := false; blocked := []; pre := None; hung := [] |})
+      then L (srun_labels {| sg_window := negb (Z.eqb gf 0); sg_init := negb (Z.eqb gi 0); sg_teardown := negb (Z.eqb gc 0) |} cs
+                {| tclosed := false; arun := None; cur := O; sstat := []; window := false; blocked := []; pre := None;
+                   hung := []; tdown := None; isup := false; starts := [] |})
       else
       L (run_labels {| g_factory := negb (Z.eqb gf 0); g_init := negb (Z.eqb gi 0); g_client := negb (Z.eqb gc 0) |}
                     cs init [])
